@@ -129,6 +129,20 @@ Theorem C20_strip_fmt_no_open : forall ps,
 Proof. exact strip_fmt_pieces. Qed.
 Print Assumptions C20_strip_fmt_no_open.
 
+(* the stated side condition is sufficient, not necessary.  Exactly two shapes are eaten:
+   ",digit" after a single colour token and a digit after {c}/{clear}; a digit after a
+   colour token (girc's own test "{red}1234") or anything after a {fg,bg} pair is harmless
+   because colour numbers are always written with two digits. *)
+Theorem C20_strip_fmt_exact_condition : forall ps,
+  lits_ok (fun s => no_open s /\ ctrl_free s) ps -> Forall known1 ps -> spaced_sharp ps ->
+  strip_raw (fmt (render ps)) = literals ps.
+Proof. exact strip_fmt_pieces_sharp. Qed.
+Print Assumptions C20_strip_fmt_exact_condition.
+
+Theorem C20_stated_condition_implies_exact : forall ps, spaced colourish ps -> spaced_sharp ps.
+Proof. exact spaced_implies_sharp. Qed.
+Print Assumptions C20_stated_condition_implies_exact.
+
 Theorem C20_strip_fmt_literal_reading_refuted :
   exists ps,
     lits_ok (fun s => brace_free s /\ ctrl_free s) ps /\ Forall known1 ps /\ spaced colour_tok ps /\
